@@ -31,6 +31,7 @@ type Obligation struct {
 	Goal   string
 	Desc   string
 	PathNo int
+	Taint  []string // uncontracted callees havoc'd earlier on the path (a `sat` after one may be spurious)
 
 	// filled by the solver stage
 	Status  string // "unsat" (discharged), "sat", "unknown", "timeout", "error"
@@ -44,25 +45,25 @@ type Obligation struct {
 // Ctx is the per-function-unit verification context. Declarations are shared
 // by all paths (append-only).
 type Ctx struct {
-	eng   *Engine
-	unit  *FuncUnit
-	pkg   *packages.Package
-	info  *types.Info
-	decls []string
-	seen  map[string]bool
-	nfr   int
-	obls  []*Obligation
-	lits  map[string]string // string literal -> const
+	eng      *Engine
+	unit     *FuncUnit
+	pkg      *packages.Package
+	info     *types.Info
+	decls    []string
+	seen     map[string]bool
+	nfr      int
+	obls     []*Obligation
+	lits     map[string]string // string literal -> const
 	litOrder []string
-	notes map[string]bool
-	paths int
-	ord   map[ast.Node]string // safety ordinals "bounds#3"
-	loopID map[ast.Node]string
-	callOrd map[ast.Node]int
-	prefix string // obligation name prefix for inlined code
-	boxed  map[types.Object]bool
-	aborted string
-	funcKey string
+	notes    map[string]bool
+	paths    int
+	ord      map[ast.Node]string // safety ordinals "bounds#3"
+	loopID   map[ast.Node]string
+	callOrd  map[ast.Node]int
+	prefix   string // obligation name prefix for inlined code
+	boxed    map[types.Object]bool
+	aborted  string
+	funcKey  string
 }
 
 func newCtx(e *Engine, u *FuncUnit) *Ctx {
@@ -165,12 +166,11 @@ func splitArraySort(s Sort) (Sort, Sort) {
 
 var sliceElem = map[string]Sort{}
 
-
 func sliceElemSort(s Sort) Sort { return sliceElem[s] }
 func sLen(v Val) string         { return "(slen_" + v.S[len("Slice_"):] + " " + v.T + ")" }
 func sArr(v Val) string         { return "(sarr_" + v.S[len("Slice_"):] + " " + v.T + ")" }
 func sNil(v Val) string         { return "(snil_" + v.S[len("Slice_"):] + " " + v.T + ")" }
-func isSliceSort(s Sort) bool { return strings.HasPrefix(s, "Slice_") }
+func isSliceSort(s Sort) bool   { return strings.HasPrefix(s, "Slice_") }
 
 // sortOf maps a Go type to an SMT sort.
 func (c *Ctx) sortOf(t types.Type) Sort {
@@ -376,7 +376,7 @@ func (c *Ctx) addObl(st *State, kind, name, goal, desc string) {
 		}
 	}
 	full := c.funcKey + "." + c.prefix + name
-	o := &Obligation{Name: full, Kind: kind, Func: c.funcKey, PC: append([]string(nil), st.pc...), Goal: goal, Desc: desc, PathNo: c.paths}
+	o := &Obligation{Name: full, Kind: kind, Func: c.funcKey, PC: append([]string(nil), st.pc...), Goal: goal, Desc: desc, PathNo: c.paths, Taint: append([]string(nil), st.taint...)}
 	if c.unit.Contract != nil {
 		o.Props = c.unit.Contract.Props
 	}
